@@ -123,15 +123,24 @@ def _work(job):
         # vacuity guard: only a quick `unsat` matters; `unknown` is accepted
         timeout_ms, second = min(timeout_ms, 2000), False
     res = dict(idx=idx, verdict=None, backend=None, seconds=0.0, model=None, tried=[])
-    try:
-        r, dt, model, reason = _run_z3_api(smt2, timeout_ms if not second else max(1000, timeout_ms // 3))
-    except Exception as exc:   # z3 parse/internal error: not a verdict
-        r, dt, model, reason = "error", 0.0, None, repr(exc)
-    res["tried"].append(("z3-5.1", r, round(dt, 3)))
-    res["seconds"] += dt
-    if r in ("sat", "unsat"):
-        res.update(verdict=r, backend="z3-5.1", model=model)
-        return res
+    # small portfolio over random seeds: quantifier instantiation order makes single runs unstable
+    # (the same query is `unsat` in 0.1 s under most seeds and times out under a few)
+    budget = timeout_ms if not second else max(1500, timeout_ms // 2)
+    plan = [(0, max(500, budget // 6)), (1, max(500, budget // 6)), (2, max(500, budget // 3)), (3, max(500, budget // 3))] \
+        if expect == "unsat" else [(0, budget)]
+    reason = None
+    for seed, tmo in plan:
+        try:
+            r, dt, model, reason = _run_z3_api(smt2, tmo, seed)
+        except Exception as exc:   # z3 parse/internal error: not a verdict
+            r, dt, model, reason = "error", 0.0, None, repr(exc)
+        res["tried"].append(("z3-5.1/seed%d" % seed, r, round(dt, 3)))
+        res["seconds"] += dt
+        if r in ("sat", "unsat"):
+            res.update(verdict=r, backend="z3-5.1", model=model)
+            return res
+        if r == "error":
+            break
     res["reason"] = reason
     if second:
         for name, cmd in (("z3-5.1-cli", [Z3NEW, "-T:%d" % max(1, timeout_ms // 1000)]),
